@@ -76,12 +76,15 @@ Proof.
     + right. pose proof (add_new_length r (acc ++ [x])) as H. rewrite app_length in H. simpl in H. lia.
 Qed.
 
-(* ---------- saturation ---------- *)
+(* ---------- saturation, for any successor function [next] listing the E-successors inside a finite universe U ---------- *)
 Section Saturate.
-  Variable ds : list decl.
-  Let next := succs ds.
+  Variable next : tname -> list tname.
+  Variable E : tname -> tname -> Prop.
+  Hypothesis Hnext : forall s z, In z (next s) <-> E s z.
+  Variable U : list tname.
+  Hypothesis HU : forall s z, In z (next s) -> In z U.
 
-  Definition closed (seen : list tname) : Prop := forall s z, In s seen -> edge ds s z -> In z seen.
+  Definition closed (seen : list tname) : Prop := forall s z, In s seen -> E s z -> In z seen.
 
   Lemma saturate_incl fuel : forall seen z, In z seen -> In z (saturate fuel next seen).
   Proof.
@@ -89,50 +92,38 @@ Section Saturate.
   Qed.
 
   Lemma saturate_sound x fuel : forall seen,
-    (forall s, In s seen -> subtype ds x s) -> forall s, In s (saturate fuel next seen) -> subtype ds x s.
+    (forall s, In s seen -> clos_refl_trans tname E x s) ->
+    forall s, In s (saturate fuel next seen) -> clos_refl_trans tname E x s.
   Proof.
     induction fuel as [|f IH]; intros seen Hseen s Hs; simpl in Hs; [apply Hseen, Hs|].
     apply (IH (add_new (flat_map next seen) seen)); [|exact Hs]. intros s' Hs'.
     apply add_new_from in Hs'. destruct Hs' as [H|H]; [apply Hseen, H|].
-    apply in_flat_map in H. destruct H as [u [Hu Hz]]. apply succs_edge in Hz.
+    apply in_flat_map in H. destruct H as [u [Hu Hz]]. apply Hnext in Hz.
     apply rt_trans with u; [apply Hseen, Hu|apply rt_step, Hz].
+  Qed.
+
+  Lemma add_new_all_in l : forall seen, (forall z, In z l -> In z seen) -> add_new l seen = seen.
+  Proof.
+    induction l as [|x r IHl]; intros seen Hl; simpl; [reflexivity|].
+    assert (Ex : str_in x seen = true) by (apply str_in_In, Hl; left; reflexivity).
+    rewrite Ex. apply IHl. intros z Hz. apply Hl. right. exact Hz.
   Qed.
 
   Lemma closed_fix fuel : forall seen, closed seen -> saturate fuel next seen = seen.
   Proof.
     induction fuel as [|f IH]; intros seen Hc; simpl; [reflexivity|].
-    destruct (add_new_cases (flat_map next seen) seen) as [[H1 _]|H].
-    - rewrite H1. apply IH, Hc.
-    - exfalso.
-      assert (Hall : forall z, In z (flat_map next seen) -> In z seen).
-      { intros z Hz. apply in_flat_map in Hz. destruct Hz as [u [Hu Hz]]. apply succs_edge in Hz. apply (Hc u z Hu Hz). }
-      assert (Heq : add_new (flat_map next seen) seen = seen).
-      { generalize (flat_map next seen) Hall. intros l. revert Hc. clear. intros _. revert seen.
-        induction l as [|x r IHl]; intros seen Hl; simpl; [reflexivity|].
-        assert (E : str_in x seen = true) by (apply str_in_In, Hl; left; reflexivity).
-        rewrite E. apply IHl. intros z Hz. apply Hl. right. exact Hz. }
-      rewrite Heq in H. lia.
+    rewrite add_new_all_in; [apply IH, Hc|].
+    intros z Hz. apply in_flat_map in Hz. destruct Hz as [u [Hu Hz]]. apply Hnext in Hz. apply (Hc u z Hu Hz).
   Qed.
 
-  Lemma closed_complete seen x y : closed seen -> In x seen -> subtype ds x y -> In y seen.
+  Lemma closed_complete seen x y : closed seen -> In x seen -> clos_refl_trans tname E x y -> In y seen.
   Proof.
     intros Hc Hx H. apply clos_rt_rt1n in H. induction H as [|x z y Hxz _ IH]; [exact Hx|].
     apply IH. apply (Hc x z Hx Hxz).
   Qed.
 
-  (* everything ever seen lies in a universe of |ds|+2 names *)
-  Variable x0 : tname.
-  Let universe : list tname := x0 :: "object" :: map snd ds.
-
-  Lemma succs_universe s z : In z (next s) -> In z universe.
-  Proof.
-    unfold next, succs, declared_succs. simpl. intros [<-|H]; [right; left; reflexivity|].
-    right. right. apply in_map_iff in H. destruct H as [d [Hd Hin]]. apply in_map_iff. exists d. split; [exact Hd|].
-    apply filter_In in Hin. apply Hin.
-  Qed.
-
-  Lemma saturate_closed fuel : forall seen,
-    NoDup seen -> incl seen universe -> List.length seen + fuel > List.length universe ->
+  Lemma saturate_closed (x0 : tname) fuel : forall seen,
+    NoDup seen -> incl seen (x0 :: U) -> List.length seen + fuel > List.length (x0 :: U) ->
     closed (saturate fuel next seen).
   Proof.
     induction fuel as [|f IH]; intros seen Hnd Hincl Hlen.
@@ -140,26 +131,115 @@ Section Saturate.
     - simpl. destruct (add_new_cases (flat_map next seen) seen) as [[H1 H2]|H].
       + rewrite H1.
         assert (Hc : closed seen).
-        { intros s z Hs Hz. apply H2. apply in_flat_map. exists s. split; [exact Hs|apply succs_edge, Hz]. }
+        { intros s z Hs Hz. apply H2. apply in_flat_map. exists s. split; [exact Hs|apply Hnext, Hz]. }
         rewrite closed_fix by exact Hc. exact Hc.
       + apply IH.
         * apply add_new_nodup, Hnd.
         * intros z Hz. apply add_new_from in Hz. destruct Hz as [Hz|Hz]; [apply Hincl, Hz|].
-          apply in_flat_map in Hz. destruct Hz as [u [_ Hz]]. eapply succs_universe, Hz.
+          apply in_flat_map in Hz. destruct Hz as [u [_ Hz]]. right. eapply HU, Hz.
         * lia.
+  Qed.
+
+  Lemma saturate_reach fuel x y :
+    fuel > List.length U ->
+    (In y (saturate fuel next [x]) <-> clos_refl_trans tname E x y).
+  Proof.
+    intros Hf. split.
+    - apply (saturate_sound x). intros s [<-|[]]. apply rt_refl.
+    - intros H. apply (closed_complete _ x y).
+      + apply (saturate_closed x).
+        * constructor; [intros []|constructor].
+        * intros z [<-|[]]. left. reflexivity.
+        * simpl. lia.
+      + apply saturate_incl. left. reflexivity.
+      + exact H.
   Qed.
 End Saturate.
 
+Lemma declared_succs_declared ds s z : In z (declared_succs ds s) <-> declared ds s z.
+Proof.
+  unfold declared_succs, declared. rewrite in_map_iff. split.
+  - intros [[c p] [Hp Hin]]. apply filter_In in Hin. destruct Hin as [Hin Heq]. simpl in *.
+    apply String.eqb_eq in Heq. subst. exact Hin.
+  - intros H. exists (s, z). split; [reflexivity|]. apply filter_In. split; [exact H|]. simpl. apply String.eqb_refl.
+Qed.
+
+Lemma declared_succs_universe ds s z : In z (declared_succs ds s) -> In z (map snd ds).
+Proof.
+  unfold declared_succs. intros H. apply in_map_iff in H. destruct H as [d [Hd Hin]]. apply in_map_iff.
+  exists d. split; [exact Hd|]. apply filter_In in Hin. apply Hin.
+Qed.
+
 Theorem closure_b_lemma : forall ds x y, closure_b ds x y = true <-> subtype ds x y.
 Proof.
-  intros ds x y. unfold closure_b. rewrite str_in_In. split.
-  - apply (saturate_sound ds x). intros s [<-|[]]. apply rt_refl.
-  - intros H.
-    apply (closed_complete ds _ x y).
-    + apply (saturate_closed ds x).
-      * constructor; [intros []|constructor].
-      * intros z [<-|[]]. left. reflexivity.
-      * simpl. rewrite map_length. unfold decl, tname. lia.
-    + apply saturate_incl. left. reflexivity.
-    + exact H.
+  intros ds x y. unfold closure_b. rewrite str_in_In.
+  apply (saturate_reach (succs ds) (edge ds) (succs_edge ds) ("object" :: map snd ds)).
+  - intros s z [<-|H]; [left; reflexivity|right; eapply declared_succs_universe, H].
+  - simpl. rewrite map_length. unfold decl, tname. lia.
+Qed.
+
+(* ---------- the executable forest test ---------- *)
+Lemma nodup_b_NoDup l : nodup_b l = true <-> NoDup l.
+Proof.
+  induction l as [|x r IH]; simpl.
+  - split; [constructor|reflexivity].
+  - rewrite andb_true_iff, negb_true_iff, IH. split.
+    + intros [Hx Hr]. constructor; [|exact Hr]. intros Hin. apply str_in_In in Hin. rewrite Hin in Hx. discriminate.
+    + intros H. inversion H as [|a l' Hx Hr]; subst. split; [|exact Hr].
+      destruct (str_in x r) eqn:Ex; [|reflexivity]. exfalso. apply Hx, str_in_In, Ex.
+Qed.
+
+(* a cycle = some declared pair (c, p) whose parent leads back to the child *)
+Lemma trans_in_rt ds a b : clos_trans tname (declared ds) a b -> clos_refl_trans tname (declared ds) a b.
+Proof.
+  intros H. induction H as [a b Hab|a b c _ IH1 _ IH2]; [apply rt_step, Hab|apply rt_trans with b; assumption].
+Qed.
+
+Lemma step_rt_trans ds a b c :
+  declared ds a b -> clos_refl_trans tname (declared ds) b c -> clos_trans tname (declared ds) a c.
+Proof.
+  intros Hab Hbc. apply clos_rt_rtn1 in Hbc. induction Hbc as [|m c Hmc _ IH]; [apply t_step, Hab|].
+  apply t_trans with m; [exact IH|apply t_step, Hmc].
+Qed.
+
+Lemma cyclic_pair ds :
+  cyclic ds <-> exists c p, declared ds c p /\ clos_refl_trans tname (declared ds) p c.
+Proof.
+  split.
+  - intros [x H]. apply clos_trans_t1n in H.
+    assert (Hgen : forall a b, clos_trans_1n tname (declared ds) a b ->
+                     exists p, declared ds a p /\ clos_refl_trans tname (declared ds) p b).
+    { intros a b Hab. destruct Hab as [b Hab|p b Hap Hpb].
+      - exists b. split; [exact Hab|apply rt_refl].
+      - exists p. split; [exact Hap|]. apply trans_in_rt, clos_t1n_trans, Hpb. }
+    destruct (Hgen x x H) as [p [Hxp Hpx]]. exists x, p. split; assumption.
+  - intros [c [p [Hcp Hpc]]]. exists c. apply (step_rt_trans ds c p c Hcp Hpc).
+Qed.
+
+Theorem cyclic_b_lemma : forall ds, cyclic_b ds = true <-> cyclic ds.
+Proof.
+  intros ds. rewrite cyclic_pair. unfold cyclic_b. rewrite existsb_exists. split.
+  - intros [[c p] [Hin Hs]]. cbn [fst snd] in Hs. exists c, p. split; [exact Hin|].
+    apply str_in_In in Hs.
+    apply (saturate_reach (declared_succs ds) (declared ds) (declared_succs_declared ds) (map snd ds)
+             (declared_succs_universe ds)) in Hs; [exact Hs|].
+    rewrite map_length. unfold decl, tname. lia.
+  - intros [c [p [Hcp Hpc]]]. exists (c, p). split; [exact Hcp|]. cbn [fst snd]. apply str_in_In.
+    apply (saturate_reach (declared_succs ds) (declared ds) (declared_succs_declared ds) (map snd ds)
+             (declared_succs_universe ds)); [|exact Hpc].
+    rewrite map_length. unfold decl, tname. lia.
+Qed.
+
+Theorem forest_b_lemma : forall ds, forest_b ds = true <-> forest ds.
+Proof.
+  intros ds. unfold forest_b, forest, one_parent, object_is_root, acyclic.
+  rewrite !andb_true_iff, !negb_true_iff, nodup_b_NoDup. split.
+  - intros [[H1 H2] H3]. split; [exact H1|]. split.
+    + intros Hin. apply str_in_In in Hin. rewrite Hin in H2. discriminate.
+    + intros x Hx. assert (Hc : cyclic_b ds = true) by (apply cyclic_b_lemma; exists x; exact Hx).
+      rewrite Hc in H3. discriminate.
+  - intros [H1 [H2 H3]]. split; [split; [exact H1|]|].
+    + destruct (str_in "object" (map fst ds)) eqn:E; [|reflexivity]. exfalso. apply H2, str_in_In, E.
+    + destruct (cyclic_b ds) eqn:E; [|reflexivity]. exfalso. apply cyclic_b_lemma in E. destruct E as [x Hx].
+      apply (H3 x Hx).
 Qed.
